@@ -2,7 +2,11 @@
 use std::collections::{HashMap, VecDeque};
 use std::sync::Arc;
 //@@ include prelude/cmp.rs
+//@@ include prelude/hash_keys.rs
+//@@ include prelude/arc.rs
+//@@ include prelude/clone_take.rs
 verus! {
+broadcast use {group_byte_keys, group_clone_take, vstd::std_specs::hash::group_hash_axioms};
 //@@ item src/error.rs FerrousError
 //@@ item src/error.rs CommandError
 //@@ item src/error.rs StorageError
@@ -78,6 +82,69 @@ pub fn queue_command(conn: &mut Connection, parts: Vec<RespFrame>) -> (r: Result
         final(conn).db_index == old(conn).db_index,
 //@@ body
 //@@ end
+
+// ======================= WATCH =========================
+/// MODEL of the storage engine as far as WATCH uses it: the baseline the engine reports for (db, key) — from register_watch, or, when that
+/// refuses, from get_modification_counter, or 0 — is a function of the engine state at the call (shared reference: unchanged by WATCH here)
+pub struct WatchStore { pub g: Ghost<int> }
+pub uninterp spec fn spec_registered(s: WatchStore, db: usize, key: Seq<u8>) -> Option<u64>;
+pub uninterp spec fn spec_counter(s: WatchStore, db: usize, key: Seq<u8>) -> Option<u64>;
+impl WatchStore {
+    /// ASSUMED CONTRACT (engine.rs StorageEngine::register_watch)
+    #[verifier::external_body]
+    pub fn register_watch(&self, db: usize, key: &[u8]) -> (r: Result<u64>)
+        ensures match spec_registered(*self, db, key@) { Some(c) => r == Ok::<u64, FerrousError>(c), None => r is Err },
+    { unimplemented!() }
+    /// ASSUMED CONTRACT (engine.rs StorageEngine::get_modification_counter)
+    #[verifier::external_body]
+    pub fn get_modification_counter(&self, db: usize, key: &[u8]) -> (r: Result<u64>)
+        ensures match spec_counter(*self, db, key@) { Some(c) => r == Ok::<u64, FerrousError>(c), None => r is Err },
+    { unimplemented!() }
+}
+pub open spec fn baseline(s: WatchStore, db: usize, key: Seq<u8>) -> u64 {
+    match spec_registered(s, db, key) { Some(c) => c, None => match spec_counter(s, db, key) { Some(c) => c, None => 0 } }
+}
+pub open spec fn bulk_at(parts: Seq<RespFrame>, i: int) -> Option<Seq<u8>> {
+    if 0 <= i < parts.len() { match parts[i] { RespFrame::BulkString(Some(b)) => Some(b@), _ => None } } else { None }
+}
+pub open spec fn all_bulk_from(parts: Seq<RespFrame>, from: int) -> bool { forall|i: int| from <= i < parts.len() ==> #[trigger] bulk_at(parts, i) is Some }
+/// the watch table after WATCH has worked through arguments 1..n
+pub open spec fn watched_upto(o: Map<Vec<u8>, u64>, f: Map<Vec<u8>, u64>, s: WatchStore, db: usize, parts: Seq<RespFrame>, n: int) -> bool {
+    &&& forall|i: int| 1 <= i < n ==> f.contains_key(key_of(#[trigger] bulk_at(parts, i)->Some_0)) && f[key_of(bulk_at(parts, i)->Some_0)] == baseline(s, db, bulk_at(parts, i)->Some_0)
+    &&& forall|k: Vec<u8>| #[trigger] f.contains_key(k) ==> ((o.contains_key(k) && f[k] == o[k]) || exists|i: int| 1 <= i < n && #[trigger] bulk_at(parts, i) == Some(k@))
+    &&& forall|k: Vec<u8>| #[trigger] o.contains_key(k) ==> f.contains_key(k)
+}
+//@@ unit handle_watch fn src/storage/commands/transactions.rs handle_watch
+//@@   params drop "storage: &Arc<StorageEngine>" add "storage: &WatchStore"
+//@@   rewrite RT "bytes.as_ref().clone()" "verif_clone_bytes(bytes)"
+//@@   loop 0
+//@@|     invariant
+//@@|         1 <= i <= parts@.len(), parts@.len() >= 2, !old(conn).transaction_state.in_transaction,
+//@@|         conn.db_index == old(conn).db_index, conn.transaction_state.in_transaction == old(conn).transaction_state.in_transaction,
+//@@|         conn.transaction_state.queued_commands == old(conn).transaction_state.queued_commands, conn.transaction_state.aborted == old(conn).transaction_state.aborted,
+//@@|         forall|j: int| 1 <= j < i ==> #[trigger] bulk_at(parts@, j) is Some,
+//@@|         watched_upto(old(conn).transaction_state.watched_keys@, conn.transaction_state.watched_keys@, *storage, old(conn).db_index, parts@, i as int),
+//@@   at "match storage.register_watch(conn.db_index, &key)"
+//@@|     let ghost before = conn.transaction_state.watched_keys@;
+//@@|     proof { assert(bulk_at(parts@, i as int) == Some(key@)); }
+pub fn handle_watch(conn: &mut Connection, parts: &[RespFrame], storage: &WatchStore) -> (r: Result<RespFrame>)
+    ensures
+        r is Ok, final(conn).db_index == old(conn).db_index,
+        final(conn).transaction_state.in_transaction == old(conn).transaction_state.in_transaction,
+        final(conn).transaction_state.queued_commands == old(conn).transaction_state.queued_commands,
+        final(conn).transaction_state.aborted == old(conn).transaction_state.aborted,
+        // refused outright: no argument, or inside MULTI — nothing is watched
+        (parts@.len() < 2 || old(conn).transaction_state.in_transaction) ==> (r->Ok_0 is Error) && final(conn).transaction_state.watched_keys@ == old(conn).transaction_state.watched_keys@,
+        // C08: every key argument is watched under ITS OWN BYTES (not a decoding of them), in the connection's database, with the baseline the
+        // engine reports for exactly those bytes; keys watched before stay watched; nothing else enters the table
+        parts@.len() >= 2 && !old(conn).transaction_state.in_transaction && all_bulk_from(parts@, 1) ==> !(r->Ok_0 is Error)
+            && watched_upto(old(conn).transaction_state.watched_keys@, final(conn).transaction_state.watched_keys@, *storage, old(conn).db_index, parts@, parts@.len() as int),
+        parts@.len() >= 2 && !old(conn).transaction_state.in_transaction && !all_bulk_from(parts@, 1) ==> (r->Ok_0 is Error),
+//@@ body
+//@@ end
+/// `bytes.as_ref().clone()` on an Arc<Vec<u8>> (RT site): a copy of the argument's bytes
+#[verifier::external_body]
+pub fn verif_clone_bytes(b: &Arc<Vec<u8>>) -> (r: Vec<u8>) ensures r@ == b@, { unimplemented!() }
 
 } // verus!
 fn main() {}
